@@ -157,10 +157,14 @@ def crosscheck(world, run, rep, opts):
             rp = replay.replay_operator(world, run, fake, opts)
         except Exception as ex:
             skipped += 1; continue
-        if rp.get('status') == 'reproduced' and not rp.get('note'):
+        # only the clauses that were PROVED for this path are claims of the engine: a clause that is refuted (e.g. a listed known finding)
+        # is expected to be false on the real run too
+        proved_names = {o.name.split('/ensures.')[1] for o in rep.obligations if o.kind == 'ensures' and o.result == 'proved' and o.name.startswith(key + '/ensures.')}
+        failed = [fc for fc in (rp.get('failed_clauses') or []) if (fc[0] if isinstance(fc, (list, tuple)) else fc) in proved_names]
+        if rp.get('status') == 'reproduced' and not rp.get('note') and failed:
             # only meaningful when the concrete pre-state satisfies the (quantified) requires too; report with the details
-            dis.append({'path': key, 'replay': rp})
-        elif rp.get('status') == 'not-reproduced':
+            dis.append({'path': key, 'replay': dict(rp, failed_clauses=failed)})
+        elif rp.get('status') == 'not-reproduced' or (rp.get('status') == 'reproduced' and not rp.get('note') and not failed):
             agree += 1
         else:
             skipped += 1
